@@ -317,7 +317,7 @@ fn c05_move_input() {
     std::mem::forget(p);
 }
 
-// @harness name=c03_parse_sticky props=C03,C06 tier=quick timeout=900
+// @harness name=c03_parse_sticky props=C03,C06,C05 tier=quick timeout=900
 // @bound final states Fatal(e) for every parser::Error kind the request parser produces: parse(n) for every n, any buffered length; output cleared, state and input untouched
 // @functions request::Parser::parse, request::State::drive, request::Parser::into_request
 #[kani::proof]
@@ -350,6 +350,36 @@ fn c03_parse_sticky() {
     kani::cover!(n > 0 && il + n == B, "buffer filled after the error");
     // consuming the parser reports the same error
     match p.into_request() { Err(e) => { std::mem::forget(e); } Ok(x) => { std::mem::forget(x); panic!("into_request succeeded after a fatal error"); } }
+}
+
+// @harness name=c05_parse_after_done props=C05,C03 tier=quick timeout=900 rmbody=nodropreq
+// @bound final state Done(request): parse(n) for every n and any buffered length 0..24: still done, no output, every announced byte accounted for, and into_request() hands back exactly the buffered + newly announced bytes (a caller may keep feeding after `done`; those bytes belong to the next consumer)
+// @functions request::Parser::parse (final states), request::Parser::into_request
+#[kani::proof]
+#[kani::unwind(4)]
+#[kani::stub(std::hash::RandomState::new, fixed_random_state)]
+fn c05_parse_after_done() {
+    let cfg = cfg1();
+    let buf: [u8; B] = kani::any();
+    let il: usize = kani::any();
+    kani::assume(il <= B);
+    let mut p = mk_parser(&cfg, buf, il, State::Done(fresh_req()));
+    let n: usize = kani::any();
+    kani::assume(n <= B - il);
+    let (done, outlen) = { let y = p.parse(n); (y.done, y.output.len()) };
+    assert!(done && outlen == 0, "a finished preamble stays finished, without output");
+    assert!(p.input_len == il + n, "C05: bytes announced after `done` must stay in the buffer for the next consumer");
+    assert!(matches!(&p.state, State::Done(_)), "final state changed");
+    match p.into_request() {
+        Ok((req, rest)) => {
+            assert!(rest.len() == il + n, "C05: leftover input is not exactly the unread bytes");
+            let j: usize = kani::any();
+            if j < il + n { assert!(rest[j] == buf[j], "C05: leftover bytes changed"); }
+            kani::cover!(n > 0 && il > 0, "input fed after done is handed over behind the look-ahead");
+            std::mem::forget(req);
+        }
+        Err(e) => { std::mem::forget(e); panic!("into_request failed for a finished preamble"); }
+    }
 }
 
 /// Stand-in for `State::drive` in the harness of the `Parser::parse` glue: consumes an arbitrary prefix and
